@@ -42,6 +42,11 @@ def cases(rng, tier):
     # lengths at / next to powers of two and round thousands with charged residues at BOTH termini; chains with 1000 / 1001 / 1025 charged residues
     for sq in gen.boundary_seqs(rng, tier != "quick") + gen.charged_count_seqs(rng, tier != "quick"):
         yield Case(["q scd " + sq], {"kind": "boundary-length-or-charged-count"})
+    # backend objects built directly from lower / mixed case text (the backend upper-cases on its own)
+    from ..real import hex6 as _hex6b
+    for kind_, sq in gen.rand_seqs(rng, 12 if tier == "quick" else 120, 60):
+        raw = "".join(c.lower() if rng.random() < 0.6 else c for c in sq)
+        yield Case(["backendq %s scd" % _hex6b(raw)], {"kind": "backend-object-from-mixed-case"})
     # objects built from sequence files (two per block)
     for c in gen.file_cases(rng, 12 if tier == "quick" else 100, ['scd']):
         yield c
@@ -79,7 +84,7 @@ def judge(case, reals, gens, specs):
     if reals[0][0] == "childq":
         ok_c, why = core.judge_childq(reals[0])
         return [] if ok_c else [("violation", 0, why)]
-    if case.tags.get("kind") in ("after-other-calls", "after-calls-on-another-object", "object-from-file", "object-from-big-file", "very-long", "repeated-calls", "boundary-length-or-charged-count"):
+    if case.tags.get("kind") in ("after-other-calls", "after-calls-on-another-object", "object-from-file", "object-from-big-file", "very-long", "repeated-calls", "boundary-length-or-charged-count", "backend-object-from-mixed-case"):
         from ..runner import default_judge
         return default_judge(None, case, reals, gens, specs)      # (only the final scd line: judge_from)
     r, g, s = reals[0], gens[0], specs[0]
